@@ -6,7 +6,7 @@ RULE = ("redirect chains of 1..4 hops; Locations drawn from: absolute http/https
         "scheme/host), scheme-relative, path-absolute, path-relative with ./ and ../ segments, query-only, empty, with fragments; "
         "sometimes two Location fields (the last wins); 6% malformed Locations (empty host, port 99999, space in host, bad port, "
         "unterminated IPv6) that must be errors; original requests over http/https, three hosts, ports, with/without explicit Host "
-        "(explicit Host = known finding class inherited-host). After each hop: q_uri, request line and Host of the next head. "
+        "(explicit Host = known finding class inherited-host); origin-form request URIs (no base to resolve against: must be an error). After each hop: q_uri, request line and Host of the next head. "
         "oracle = independent Python RFC 3986 section 5 resolver + url-crate normalisations. non-trivial = >= 1 hop followed and the "
         "next head inspected; distinct = distinct op lists")
 TRUSTED_BASE = COMMON_TRUSTED_BASE
@@ -27,6 +27,18 @@ def generate(rng, tier, mult):
         _stats["two_locations"] += sum(1 for h in meta["hops"] if h.get("n_loc") == 2)
         _stats["explicit_host"] += 1 if meta["explicit_host"] else 0
         out.append({"ops": ops, "meta": meta})
+    # F19 (repaired): a request in origin-form (no scheme / authority, explicit Host) cannot be a base for resolution: every
+    # Location is "unresolvable" and must be reported as an error, never a panic
+    for loc in [b"/y", b"http://b.test/y", b"../z", b"", b"?q", b"//c.test/"]:
+        for st in (301, 307):
+            ops = ["new " + request_args("GET", "1.1", "", "", "/x", [(b"host", b"a.test")]), "q_uri", "q_method", "proceed", "write_head #100000", "proceed",
+                   "raw_try_response %s" % hx(render_response_head("1.1", st, b"F", [(b"Location", loc), (b"Content-Length", b"0")])),
+                   "proceed", "as_new_flow never", "as_new_flow same_host", "q_must_close", "proceed", "q_must_close"]
+            meta = {"scheme": "", "host": "", "port": "", "policy": "never", "orig_headers": [[b"host".hex(), b"a.test".hex()]], "explicit_host": True,
+                    "hops": [{"hop": 0, "added": [], "head_idx": 4, "quri_idx": 1, "qmethod_idx": 2, "uri": ["", "", b"/x".hex(), None], "method": "GET",
+                              "status": st, "location": loc.hex(), "anf_idx": 8, "malformed": True, "n_loc": 1, "followed": False}],
+                    "stopped": 0, "method": "GET", "origin_form": True}
+            out.append({"ops": ops, "meta": meta})
     return out
 
 
@@ -64,7 +76,7 @@ def first_malformed(script):
 
 def project(script, i, line):
     fm = first_malformed(script)
-    if fm is not None and i >= fm:
+    if fm is not None and i >= fm and not script["meta"].get("origin_form"):
         return None
     return "err" if line.startswith("err") else line
 
